@@ -5,6 +5,7 @@ mod dhcp;
 mod dns;
 mod frag;
 mod frames;
+mod garbage;
 mod ingress;
 mod lowpan;
 mod neigh;
@@ -34,6 +35,8 @@ fn main() {
         "csum-replay" => csum::replay(&args),
         "ingress-replay" => ingress::replay(&args),
         "lowpan-replay" => lowpan::replay(&args),
+        "garbage-replay" => garbage::replay(&args),
+        "garbage-random" => garbage::random(&args),
         "dns-random" => dns::random(&args),
         "dnsname-replay" => dns::name_replay(&args),
         "pollat-random" => pollat::random(&args),
